@@ -1416,7 +1416,9 @@ class DlayxsFmt(Fmt):
         @each
         def ids(g, L):
             return g.state.setdefault("ids", g.rng.sample(g.pool["mcc3"], 6)).pop()
-        return {"nuclideIDs": ids}
+        def label(g, L):  # the field width of this label is inferred from the label itself: keep it at full width
+            return "".join(chr(g.rng.randint(0x20, 0x7E)) for _ in range(L - 1)) + chr(g.rng.randint(0x21, 0x7E)) if L else ""
+        return {"nuclideIDs": ids, "label": label}
 
     def generate(self, rng, hostile):
         from armi.nuclearDataIO.cccc import dlayxs
@@ -1649,6 +1651,10 @@ def do_fixtures(spec, rec, rng):
                             census_violation(fmt, c, exp, pl, rec, dict(w, note="shipped file vs specification"))
                 except ScanError as e:
                     rec.violation("framing/%s/fixture-%s" % (fname, e.kind), "shipped %s: %s" % (rel, e.detail), w)
+            if fname in ("isotxs", "gamiso") and raw[4:28] != out[4:28] and len(raw) == len(out):
+                # IsotxsIO._updateFileLabel replaces a foreign 24-character file label by "ISOTXS" on purpose (documented there)
+                rec.add("fixture_labels_normalised_by_design", 1)
+                raw = raw[:4] + out[4:28] + raw[28:]
             if out != raw:
                 rec.violation("fixture/%s/rewrite-differs" % fname, "%s: write(read(file)) differs from the shipped file at byte %d" % (rel, _first_diff(raw, out)["offset"]),
                               dict(w, first_diff=_first_diff(raw, out)))
@@ -1703,7 +1709,11 @@ def do_generated(spec, rec, rng):
         # (2) write(read(file)) == file
         rec.hit("gen.image-reproduced")
         out = _rd("img.out")
-        if out != image:
+        if out != image and fmt.name == "compxs" and out == compxs_d2_over_d1(image, c1):
+            rec.violation("compxs/d1-multiplier-overwritten-by-d2", "COMPXS: the first-dimension diffusion-coefficient multiplier of every group record is lost on read "
+                          "(REGIONXS_POWER_CONVERT_DIRECTIONAL_DIFF lists 'd1Multiplier' twice and never 'd2Multiplier'), so write(read(file)) puts the D2 multiplier "
+                          "in both places", dict(w, first_diff=_first_diff(image, out)))
+        elif out != image:
             fd = _first_diff(image, out)
             at = _locate(scan_records(image), fd["offset"])
             rec.violation("rewrite/%s/synthetic-file-not-reproduced" % fmt.name, "%s: write(read(file)) differs from the file at byte %d (record %s, payload byte %s)"
@@ -1713,6 +1723,26 @@ def do_generated(spec, rec, rng):
         nrec = roundtrips(fmt, c1, rec, dict(w, refilled=refilled))
         rec.case(["gen", fmt.name, sorted(w["header"].items())], nontrivial=fmt.nontrivial(nrec),
                  sample=dict(w, records=nrec, bytes=len(image)) if ci < len(names) * 1 and ci % len(names) == 0 and not hostile else None)
+
+
+def compxs_d2_over_d1(image, lib):
+    """The synthetic COMPXS image with the D2 multiplier copied over the D1 multiplier in every group record
+    (group record layout per the DIF3D COMPXS description: 4 principal xs, [fission, nu-fission, chi(ICHI)], scatter band, PC, A1, B1, A2, B2, A3, B3, ...)."""
+    b = bytearray(image)
+    pl = scan_records(image)
+    starts, pos = [], 0
+    for p in pl:
+        starts.append(pos + 4)
+        pos += 8 + p
+    ng = lib.compxsMetadata["numGroups"]
+    for ri, reg in enumerate(lib.regions):
+        md = reg.metadata
+        for grp in range(ng):
+            r = 2 + ri * (1 + ng) + 1 + grp
+            off = 32 + ((16 + 8 * md["chiFlag"]) if md["chiFlag"] else 0) + 8 * (int(md["numUpScatterGroups"][grp]) + 1 + int(md["numDownScatterGroups"][grp])) + 8
+            a = starts[r] + off
+            b[a:a + 8] = b[a + 16:a + 24]
+    return bytes(b)
 
 
 def gen_fixsrc(fmt, rng, rec, w, ci):
@@ -1774,7 +1804,8 @@ GEN_SHARDS = [("rtflux", ["rtflux", "atflux"]), ("pwdint", ["pwdint"]), ("rzflux
 def plan(tier, seed):
     q = tier == "quick"
     shards = [{"name": "records-%d" % i, "kind": "records", "n": 2000 if q else 17000} for i in range(1 if q else 3)]
-    shards.append({"name": "fixtures-xs", "kind": "fixtures", "formats": ["isotxs", "gamiso", "pmatrx", "compxs", "dlayxs"]})
+    shards.append({"name": "fixtures-isotxs", "kind": "fixtures", "formats": ["isotxs"]})
+    shards.append({"name": "fixtures-xs", "kind": "fixtures", "formats": ["gamiso", "pmatrx", "compxs", "dlayxs"]})
     shards.append({"name": "fixtures-flux", "kind": "fixtures", "formats": ["rtflux", "pwdint", "rzflux", "nhflux", "nhflux-variant", "geodst", "dif3d", "labels"]})
     for name, fl in GEN_SHARDS:
         shards.append({"name": "gen-" + name, "kind": "generated", "formats": fl, "n": (40 if q else 1500) * (2 if len(fl) > 1 else 1)})
